@@ -1,6 +1,26 @@
 import Driver.KCodec
+import Driver.KRooms
+import Driver.KServer
+import Driver.KSched
+import Driver.KPubSub
+import Driver.KClient
+import Driver.KReconnect
+import Driver.KDispatch
+import Driver.KSimple
+import Driver.KAdmin
+import Driver.KForward
 
 def main (args : List String) : IO UInt32 := do
   match args with
   | ["codec"] => Sio.KCodec.main; return 0
+  | ["rooms"] => Sio.KRooms.main; return 0
+  | ["server"] => Sio.KServer.main; return 0
+  | ["sched"] => Sio.KSched.main; return 0
+  | ["pubsub"] => Sio.KPubSub.main; return 0
+  | ["client"] => Sio.KClient.main; return 0
+  | ["reconnect"] => Sio.KReconnect.main; return 0
+  | ["dispatch"] => Sio.KDispatch.main; return 0
+  | ["simple"] => Sio.KSimple.main; return 0
+  | ["admin"] => Sio.KAdmin.main; return 0
+  | ["forward"] => Sio.KForward.main; return 0
   | _ => IO.eprintln "usage: siodriver <kernel>"; return 2
